@@ -139,3 +139,59 @@ def cmiC (X Y Z : VSet) : Comb :=
   condH X Z ++ condH Y Z ++ Comb.scale (-1) (condH (vunion X Y) Z)
 
 end Dit
+
+namespace Dit
+
+variable {α : Type}
+
+/-- The transcendental operations a number type must provide for the entropy family:
+`log` (base 2), `pow x a = x^a`, the cast of naturals, and `log₂ e`. -/
+structure RealOps (α : Type) where
+  log : α → α
+  pow : α → α → α
+  ofNat : Nat → α
+  log2e : α
+
+/-- Order of a Rényi entropy: a finite real order or `∞`. -/
+inductive ROrder (α : Type) where
+  | fin (a : α)
+  | inf
+  deriving Repr
+
+/-- Number of non-null entries (the support size). -/
+def supportSize [BEq α] [Zero α] (ps : List α) : Nat := (ps.filter (fun p => !(p == 0))).length
+
+/-- Maximum of a list (0 for the empty list). -/
+def lmax [Zero α] [LT α] [DecidableLT α] (ps : List α) : α :=
+  ps.foldl (fun m p => if m < p then p else m) 0
+
+/-- Rényi entropy of order `a` of a list of probabilities (bits):
+order 0: `log₂ |support|`; order 1: Shannon; order ∞: `−log₂ max p`; otherwise
+`(1/(1−a)) log₂ Σ pᵃ` over the support. -/
+def renyiVals [BEq α] [Zero α] [One α] [Add α] [Sub α] [Mul α] [Div α] [Neg α] [LT α] [DecidableLT α]
+    (R : RealOps α) (ord : ROrder α) (ps : List α) : α :=
+  match ord with
+  | .inf => -(R.log (lmax ps))
+  | .fin a =>
+    if a == 0 then R.log (R.ofNat (supportSize ps))
+    else if a == 1 then entropyVals R.log ps
+    else (1 / (1 - a)) * R.log (lsum ((ps.filter (fun p => !(p == 0))).map (fun p => R.pow p a)))
+
+/-- Tsallis entropy of order `q`: order 1: Shannon entropy in nats; otherwise
+`(1/(q−1)) (1 − Σ p^q)` over the support. -/
+def tsallisVals [BEq α] [Zero α] [One α] [Add α] [Sub α] [Mul α] [Div α] [Neg α]
+    (R : RealOps α) (q : α) (ps : List α) : α :=
+  if q == 1 then entropyVals R.log ps / R.log2e
+  else (1 / (q - 1)) * (1 - lsum ((ps.filter (fun p => !(p == 0))).map (fun p => R.pow p q)))
+
+/-- Extropy `−Σ (1−p) log₂ (1−p)`. -/
+def extropyVals [BEq α] [Zero α] [One α] [Add α] [Sub α] [Mul α] [Neg α]
+    (log : α → α) (ps : List α) : α :=
+  entropyVals log (ps.map (fun p => 1 - p))
+
+/-- Perplexity `2^H`. -/
+def perplexityVals [BEq α] [Zero α] [Add α] [Mul α] [Neg α]
+    (R : RealOps α) (two : α) (ps : List α) : α :=
+  R.pow two (entropyVals R.log ps)
+
+end Dit
